@@ -142,91 +142,71 @@ def r05_7_defaults(ctx, rid='R05.7'):
             if isinstance(c, ast.Compare) and len(c.ops) == 1 and isinstance(c.ops[0], ast.Lt) \
                     and norm(c.left).startswith('<each:enumerate(') and norm(c.left).endswith('.args)>[0]'):
                 fa = norm(c.comparators[0])
-    # defaulted_attributes: result[ARGS[FO + i]] = default in a whole loop over enumerate(defaults)
+    # defaulted_attributes, canonical form (N36-N38): for name, default in zip(ARGS[FO:], DEFAULTS):
+    #                                                    if name in U: result[name] = U[name] else: result[name] = default
     fb = None
-    stores = [n for n in b.walk() if isinstance(n, ast.Assign) and isinstance(n.targets[0], ast.Subscript)]
     ok = False
-    for n in stores:
-        loops = [l for l in S.enclosing_loops(n, b.node) if isinstance(l, ast.For)]
-        if not loops:
+    if fa is not None:
+        fa = fa.replace(a.fi.params[0], 'CLS')
+    cls_p = b.fi.params[0]
+    for lo in [n for n in b.walk() if isinstance(n, ast.For)]:
+        zi = b.alpha.rewrite(lo.iter)
+        if not (isinstance(zi, ast.Call) and isinstance(zi.func, ast.Name) and zi.func.id == 'zip' and len(zi.args) == 2 and not zi.keywords
+                and isinstance(lo.target, ast.Tuple) and len(lo.target.elts) == 2 and S.whole_collection_loop(lo)):
             continue
-        lo = loops[0]
-        it = b.alpha.text(lo.iter)
-        if not ((it.startswith('enumerate(') or it.startswith('zip(')) and '.defaults' in it and 'getfullargspec(' in it
-                and S.whole_collection_loop(lo) and isinstance(lo.target, ast.Tuple) and len(lo.target.elts) == 2):
+        names_, defs_ = zi.args
+        if not (isinstance(names_, ast.Subscript) and isinstance(names_.slice, ast.Slice) and names_.slice.upper is None
+                and names_.slice.step is None and names_.slice.lower is not None and norm(names_.value).endswith('.args')
+                and '.defaults' in norm(defs_) and 'getfullargspec(' in norm(defs_)):
             continue
-        iv, dv = (norm(x) for x in lo.target.elts)
-        ivt = '<each:%s>[0]' % it
-        keyv = n.targets[0].slice
-        kk = b.alpha.rewrite(keyv)
-        fb_here = None
-        if it.startswith('enumerate(') and isinstance(kk, ast.Subscript) and norm(kk.value).endswith('.args') and isinstance(kk.slice, ast.BinOp) \
-                and isinstance(kk.slice.op, ast.Add) and ivt in (norm(kk.slice.left), norm(kk.slice.right)) and norm(n.value) == dv:
-            fb_here = norm(kk.slice.right) if norm(kk.slice.left) == ivt else norm(kk.slice.left)
-        elif it.startswith('zip('):
-            # for name, default in zip(ARGS[FO:], DEFAULTS): result[name] = default
-            zi = b.alpha.rewrite(lo.iter)
-            if isinstance(zi, ast.Call) and len(zi.args) == 2 and not zi.keywords:
-                names_, defs_ = zi.args
-                if (isinstance(names_, ast.Subscript) and isinstance(names_.slice, ast.Slice) and names_.slice.upper is None
-                        and names_.slice.step is None and names_.slice.lower is not None and norm(names_.value).endswith('.args')
-                        and '.defaults' in norm(defs_) and norm(kk) == ivt and norm(n.value) == dv):
-                    fb_here = norm(names_.slice.lower)
-        if fb_here is not None:
-            fb = fb_here
-            inner = [x for x in b.cfg.guard_nodes(b.nid(n)) if any(y is lo for y in S._ancestors_list(x.ast))]
-            ok = not inner
-            # the override
-            ov = [m for m in ast.walk(lo) if isinstance(m, ast.Assign) and norm(m.targets[0]) == dv]
-            ov_ok = False
-            kt = norm(kk)
-            for m in ov:
-                ig = [x for x in b.cfg.guard_nodes(b.nid(m)) if any(y is lo for y in S._ancestors_list(x.ast))]
-                if len(ig) == 1 and ig[0].pol and isinstance(ig[0].ast, ast.Compare) and len(ig[0].ast.ops) == 1 \
-                        and isinstance(ig[0].ast.ops[0], ast.In) and b.alpha.text(ig[0].ast.left) == kt:
-                    table = ig[0].ast.comparators[0]
-                    srcs = [norm(x) for x in assigned_from(b, norm(table))] if isinstance(table, ast.Name) else [norm(table)]
-                    cls_p = b.fi.params[0]
-                    if any(s_ == '%s._yatiml_defaults' % cls_p or s_.startswith("getattr(%s, '_yatiml_defaults'" % cls_p) for s_ in srcs) \
-                            and isinstance(m.value, ast.Subscript) \
-                            and norm(m.value.value) == norm(table) and b.alpha.text(m.value.slice) == kt:
-                        ov_ok = True
-            r.check(ov_ok, 'override: default = user_defaults[name] exactly when name in user_defaults', b.key('override'), b.loc(),
-                    'a _yatiml_defaults entry is not always applied (e.g. an explicit None override is ignored), or applied '
-                    'under another condition')
-    # form B: {name: (U[name] if name in U else default) for name, default in zip(ARGS[FO:], DEFAULTS)}
-    if fb is None:
-        for dc in [n for n in b.walk() if isinstance(n, ast.DictComp) and len(n.generators) == 1]:
-            g = dc.generators[0]
-            it = b.alpha.rewrite(g.iter)
-            if not (isinstance(it, ast.Call) and isinstance(it.func, ast.Name) and it.func.id == 'zip' and len(it.args) == 2
-                    and isinstance(g.target, ast.Tuple) and len(g.target.elts) == 2 and not g.ifs):
-                continue
-            names, defs = it.args
-            if not (isinstance(names, ast.Subscript) and isinstance(names.slice, ast.Slice) and names.slice.upper is None
-                    and names.slice.step is None and names.slice.lower is not None and norm(names.value).endswith('.args')
-                    and '.defaults' in norm(defs) and 'getfullargspec(' in norm(defs)):
-                continue
-            kname, dname = norm(g.target.elts[0]), norm(g.target.elts[1])
-            if norm(dc.key) != kname:
-                continue
-            fb = norm(names.slice.lower)
-            v = dc.value
-            ov_ok = False
-            if isinstance(v, ast.IfExp):
-                t, pol = G.canon_atom(v.test)
-                yes, no = (v.body, v.orelse) if pol else (v.orelse, v.body)
-                if isinstance(v.test, ast.Compare) and isinstance(yes, ast.Subscript) and norm(yes.slice) == kname and norm(no) == dname:
-                    table = yes.value
-                    srcs = [norm(x) for x in assigned_from(b, norm(table))] if isinstance(table, ast.Name) else [norm(table)]
-                    cls_p = b.fi.params[0]
-                    if t == '%s in %s' % (kname, norm(table)) and any(
-                            s_ == '%s._yatiml_defaults' % cls_p or s_.startswith("getattr(%s, '_yatiml_defaults'" % cls_p) for s_ in srcs):
-                        ov_ok = True
+        it = norm(zi)
+        kt, dt = '<each:%s>[0]' % it, '<each:%s>[1]' % it
+        fb = norm(names_.slice.lower).replace(cls_p, 'CLS')
+        stores = [n for n in ast.walk(lo) if isinstance(n, ast.Assign) and len(n.targets) == 1 and isinstance(n.targets[0], ast.Subscript)
+                  and b.alpha.text(n.targets[0].slice) == kt]
+        result_names = {norm(n.targets[0].value) for n in stores}
+        plain, over, bad = [], [], []
+        for n in stores:
+            ig = [(G.canon_atom(x.ast, x.pol)) for x in b.cfg.guard_nodes(b.nid(n)) if any(y is lo for y in S._ancestors_list(x.ast))]
+            vt = b.alpha.text(n.value)
+            table = None
+            if isinstance(n.value, ast.Subscript) and b.alpha.text(n.value.slice) == kt:
+                table = n.value.value
+            if vt == dt:
+                plain.append((n, ig))
+            elif table is not None:
+                over.append((n, ig, table))
+            else:
+                bad.append(n)
+
+        def is_user_table(table):
+            srcs = [norm(x) for x in assigned_from(b, norm(table))] if isinstance(table, ast.Name) else [norm(table)]
+            flat = []
+            for s_ in srcs:
+                flat.append(s_)
+            return any(s_ == '%s._yatiml_defaults' % cls_p or s_.startswith("getattr(%s, '_yatiml_defaults'" % cls_p)
+                       or s_.startswith('%s._yatiml_defaults if ' % cls_p) for s_ in flat)
+        ov_ok = False
+        if len(over) == 1 and len(plain) == 1 and not bad and len(result_names) == 1:
+            n_o, g_o, table = over[0]
+            n_p, g_p = plain[0]
+            tt = b.alpha.text(table)
+            member = '%s in %s' % (kt, tt)
+            def gtext(x):
+                e = x.ast
+                if isinstance(e, ast.Compare) and len(e.ops) == 1 and isinstance(e.ops[0], ast.In):
+                    return '%s in %s' % (b.alpha.text(e.left), b.alpha.text(e.comparators[0]))
+                return b.alpha.text(e)
+            g_o_a = [(gtext(x), x.pol) for x in b.cfg.guard_nodes(b.nid(n_o)) if any(y is lo for y in S._ancestors_list(x.ast))]
+            g_p_a = [(gtext(x), x.pol) for x in b.cfg.guard_nodes(b.nid(n_p)) if any(y is lo for y in S._ancestors_list(x.ast))]
+            ov_ok = g_o_a == [(member, True)] and g_p_a == [(member, False)] and is_user_table(table)
             ok = True
-            r.check(ov_ok, 'override: default = user_defaults[name] exactly when name in user_defaults', b.key('override'), b.loc(),
-                    'a _yatiml_defaults entry is not always applied (e.g. an explicit None override is ignored), or applied '
-                    'under another condition')
+        elif len(plain) == 1 and not over and not bad:
+            # no override at all: every defaulted parameter is recorded, but _yatiml_defaults is ignored
+            ok = not plain[0][1]
+        r.check(ov_ok, 'override: default = user_defaults[name] exactly when name in user_defaults', b.key('override'), b.loc(),
+                'a _yatiml_defaults entry is not always applied (e.g. an explicit None override is ignored), or applied '
+                'under another condition')
     r.check(fa is not None and fa == fb, 'both compute the index of the first optional parameter as %s' % fa,
             'yatiml.introspection:first-optional', 'yatiml/introspection.py',
             'class_subobjects and defaulted_attributes disagree on which parameters are optional: %s vs %s' % (fa, fb))
